@@ -41,14 +41,56 @@ def c05a(tree, ob):
     atoms = norm.all_atoms(val)
     mtu_ok = ('mtu is None', False) in atoms
     size_ok = ('orig_size > mtu', True) in atoms or ('mtu < orig_size', True) in atoms
-    mask = 0
-    for (text, pol) in atoms:
-        if pol is False and text.startswith('bundle_flags & '):
-            expr = ast.parse(text[len('bundle_flags & '):], mode='eval').body
-            v = const_int(tree, FRAG, expr)
-            if v is None:
-                raise AnalysisError('C05.a: cannot evaluate flag mask ' + text)
-            mask |= v
+    # the part of the decision that looks at the bundle flags, evaluated (by the checker's own little interpreter, constants
+    # folded from the Flag enumeration) for the four combinations of NO_FRAGMENT and IS_FRAGMENT: it must hold for "neither"
+    # only.  In whatever way the test is spelt.
+    flagparts = [v for v in val.values if 'bundle_flags' in src(v)]
+    direct_flags = any('ctr.bundle.primary.bundle_flags' in src(v) for v in flagparts)
+
+    def ev(node, flags):
+        if isinstance(node, ast.BoolOp):
+            vals = [ev(v, flags) for v in node.values]
+            return all(vals) if isinstance(node.op, ast.And) else any(vals)
+        if isinstance(node, ast.UnaryOp) and isinstance(node.op, ast.Not):
+            return not ev(node.operand, flags)
+        if isinstance(node, ast.UnaryOp) and isinstance(node.op, ast.Invert):
+            return ~ev(node.operand, flags)
+        if isinstance(node, ast.BinOp) and isinstance(node.op, (ast.BitAnd, ast.BitOr, ast.BitXor)):
+            (a, b) = (ev(node.left, flags), ev(node.right, flags))
+            return a & b if isinstance(node.op, ast.BitAnd) else (a | b if isinstance(node.op, ast.BitOr) else a ^ b)
+        if isinstance(node, ast.Compare) and len(node.ops) == 1:
+            (a, b) = (ev(node.left, flags), ev(node.comparators[0], flags))
+            op = node.ops[0]
+            if isinstance(op, ast.Eq):
+                return a == b
+            if isinstance(op, ast.NotEq):
+                return a != b
+            if isinstance(op, ast.In):
+                return a in b
+            if isinstance(op, ast.NotIn):
+                return a not in b
+        if isinstance(node, ast.Tuple):
+            return tuple(ev(e, flags) for e in node.elts)
+        if (isinstance(node, ast.Name) and node.id == 'bundle_flags') or src(node) in ('ctr.bundle.primary.bundle_flags', "ctr.bundle.primary.getfieldval('bundle_flags')"):
+            return flags
+        if isinstance(node, ast.Name):
+            return ev(fv.value_at(node, d[0], depth=3, keep=('bundle_flags',)), flags) if src(fv.value_at(node, d[0], depth=3, keep=('bundle_flags',))) != node.id else _fail(node)
+        v = const_int(tree, FRAG, node)
+        if v is None:
+            _fail(node)
+        return v
+
+    def _fail(node):
+        raise AnalysisError('C05.a: cannot evaluate ' + src(node)[:60])
+    NOF, ISF = 0x4, 0x1
+    truth = {}
+    for combo in (0, NOF, ISF, NOF | ISF):
+        truth[combo] = all(bool(ev(v, combo | 0x40)) for v in flagparts) if flagparts else True
+    mask = (0 if truth[NOF] else 0x4) | (0 if truth[ISF] else 0x1)
+    if not truth[0]:
+        ob.violate(FRAG, Q, ' and '.join(src(v) for v in flagparts)[:100], 'a bundle that may be fragmented (neither do-not-fragment nor a fragment) is never fragmented', d[0])
+    if truth[NOF | ISF] and not (truth[NOF] or truth[ISF]):
+        mask = 0x5
     if not mtu_ok:
         ob.violate(FRAG, Q, 'mtu is not None', 'fragmentation decision does not require a route MTU', d[0])
     if not size_ok:
@@ -63,7 +105,7 @@ def c05a(tree, ob):
     if src(osz) != 'len(ctr.bundle)':
         ob.violate(FRAG, Q, 'orig_size = ' + src(osz), 'the size compared with the MTU is not the encoded bundle size', d[0])
     bfl = fv.value_at(ast.parse('bundle_flags', mode='eval').body, d[0])
-    if src(bfl) != 'ctr.bundle.primary.bundle_flags':
+    if src(bfl) != 'ctr.bundle.primary.bundle_flags' and not direct_flags:
         ob.violate(FRAG, Q, 'bundle_flags = ' + src(bfl), 'flags tested are not the bundle flags', d[0])
     mt = fv.value_at(ast.parse('mtu', mode='eval').body, d[0])
     if src(mt) != 'ctr.route.mtu':
